@@ -22,6 +22,10 @@ ASSUMPTIONS = [
     "order is judged only between inputs that differ; +-inf inputs are not judged themselves but must not disturb finite ones",
     "limits are judged only when vmin < vmax (heavy ties can make quantile limits coincide)",
     "LinearStretch slope/intercept only where [0,1] maps into [0,1] (the class clips its input)",
+    "a quantile interval's limits are judged by rank only: each must lie between the order statistics around rank q*(n-1) of the finite data (+-1 rank), so any interpolation rule passes",
+    "pedestal cases (contrast 1e-2.5..1e-6 of the offset in float32, 1e-8.5..1e-12 in float64) use limits that are exact data values; limits / extreme pixels are judged at 16 eps of the data's precision, "
+    "and the linear stretch against the float64 linear map at the same bound (measured <= 1 ulp)",
+    "large-array cases (2**20..2**24 pixels, values correlated with the pixel index modulo 2..16) judge range / order on every pixel, quantile limits by rank, min/max limits exactly, and invariance of the limits under shuffling the pixels",
 ]
 BUDGET = {"quick": {"soft_s": 120}, "thorough": {"soft_s": 900}}
 MIN_EVALUATIONS = {"quick": 500, "thorough": 5000}
@@ -54,6 +58,15 @@ def plan(tier, seed):
             specs.append({"kind": "stretch_inv", "cls": cls, "default": r == 0})
     for r in range(10 if tier == "quick" else 500):
         specs.append({"kind": "combined"})
+    # large images (interval code paths that depend on the number of pixels) with values correlated with pixel position
+    sizes = [2**20 + 1, 2**21 + 5, 3 * 2**20 + 2, 2**22 + 3] if tier == "quick" else [2**20 + 1, 2**21 + 5, 3 * 2**20 + 2, 2**22 + 3, 2**22 + 2**21 + 1, 2**23 + 7, 2**24 + 1]
+    for r in range(8 if tier == "quick" else 70):
+        specs.append({"kind": "big", "size": sizes[r % len(sizes)], "dtype": ["float32", "uint16", "float64", "int32"][(r // 2) % 4], "interval": ["quantile", "quantile_wide", "manual_none", "centered"][r % 4 if r % 8 < 6 else 0],
+                      "stretch": STRETCHES[(r // 3) % 4], "period": [2, 3, 4, 8, 16][r % 5]})
+    # contrast on a large pedestal (limits are exact data values, so the limits must map to exactly 0 and 1 in any precision)
+    for r in range(48 if tier == "quick" else 2000):
+        specs.append({"kind": "pedestal", "dtype": "float32" if r % 3 != 2 else "float64", "ratio_exp": [3, 4, 5, 3.5, 2.5, 6][r % 6], "interval": ["manual_none", "manual_both", "quantile_wide"][(r // 2) % 3],
+                      "stretch": STRETCHES[(r // 6) % 4]})
     # the normalisation as the plotting entry points construct it (in situ, through wrappers on the rgba converters)
     for r in range(60 if tier == "quick" else 1500):
         specs.append({"kind": "viz", "entry": "array" if r % 2 == 0 else "combined", "dtype": DTYPES[1:][r % (len(DTYPES) - 1)], "stretch": STRETCHES[(r // 2) % 4],
@@ -191,7 +204,45 @@ def _cfg(rng, iv, st, data):
         kw["logarithmic_index"] = float(10 ** rng.uniform(-3, 6))
     elif st == "asinh":
         kw["asinh_linear_range"] = float(10 ** rng.uniform(-4, 1))
+    if st != "power" and rng.random() < 0.25:
+        # two common options together: a power (gamma) next to another stretch type
+        kw["power"] = float(rng.choice([0.5, 2.0, 0.25, 3.0, float(10 ** rng.uniform(-1, np.log10(5)))]))
     return kw
+
+
+def _stretch_in_use(ctx, norm, common):
+    """Whatever stretch object the normalisation ends up using (any class, any option combination) composed with the inverse it
+    declares must be the identity on [0,1]."""
+    s = getattr(norm, "stretch", None)
+    if s is None or not hasattr(s, "inverse"):
+        ctx.count("stretch_in_use_not_inspectable")
+        return
+    y = np.concatenate([np.linspace(0.0, 1.0, 33), [0.013, 0.37, 0.92]])
+    inv = s.inverse
+    cls = type(s).__name__
+    if cls == "HyperbolicSineStretch" and getattr(s, "a", 1.0) < 0.05:
+        return
+    a = np.asarray(s(np.asarray(inv(y.copy()), dtype=np.float64).copy()), dtype=np.float64)
+    ctx.close(float(np.max(np.abs(a - y))), 1e-8, "stretch_in_use_of_inverse", lambda: "%s in use: max|s(s^-1(y))-y| = %.3g" % (cls, float(np.max(np.abs(a - y)))), **common)
+    b = np.asarray(inv(np.asarray(s(y.copy()), dtype=np.float64).copy()), dtype=np.float64)
+    ctx.close(float(np.max(np.abs(b - y))), 1e-8, "inverse_of_stretch_in_use", lambda: "%s in use: max|s^-1(s(y))-y| = %.3g" % (cls, float(np.max(np.abs(b - y)))), **common)
+
+
+def _quantile_bracket(ctx, use, ql, qu, vmin, vmax, common):
+    """A quantile interval's limits are the declared quantiles of the finite data: whatever interpolation rule is used, the
+    q-quantile lies between the order statistics around rank q*(n-1) (one extra rank of slack on either side)."""
+    fin = use[np.isfinite(use)] if use.dtype.kind == "f" else use.ravel()
+    srt = np.sort(fin.astype(np.float64).ravel())
+    n = len(srt)
+    if n < 2:
+        return
+    for q, lim, name in ((ql, vmin, "lower"), (qu, vmax, "upper")):
+        r = q * (n - 1)
+        lo = srt[max(0, int(np.floor(r)) - 1)]
+        hi = srt[min(n - 1, int(np.ceil(r)) + 1)]
+        slack = 8 * float(np.finfo(use.dtype).eps if use.dtype.kind == "f" and use.dtype.itemsize >= 4 else np.finfo(np.float64).eps) * max(abs(lo), abs(hi), 1e-300)
+        off = max(lo - slack - float(lim), float(lim) - hi - slack, 0.0)
+        ctx.check(off == 0.0, "quantile_limit_outside_rank_bracket", lambda: "%s limit %r for quantile %r of %d finite values lies outside [%r, %r]" % (name, float(lim), q, n, lo, hi), **common)
 
 
 def _tol(dtype):
@@ -234,14 +285,9 @@ def _judge(ctx, spec, data, norm, out, tag):
     xs, vs = x[order], v[order]
     # non-decreasing between inputs that differ
     # compare each output with the running max over all strictly smaller inputs
-    last_smaller_max = np.empty_like(vs)
-    cur = -np.inf
-    j = 0
-    for i in range(len(xs)):
-        while j < i and xs[j] < xs[i]:
-            cur = max(cur, vs[j])
-            j += 1
-        last_smaller_max[i] = cur
+    cummax = np.maximum.accumulate(vs)
+    first_equal = np.searchsorted(xs, xs, side="left")  # number of strictly smaller inputs
+    last_smaller_max = np.where(first_equal > 0, cummax[np.maximum(first_equal - 1, 0)], -np.inf)
     drop = last_smaller_max - vs
     worst = float(np.max(drop)) if len(drop) else 0.0
     ctx.close(max(0.0, worst), tol, "non_monotone", lambda: "x=%r -> n=%r (%s)" % (xs[:6].tolist(), vs[:6].tolist(), tag), **common)
@@ -269,6 +315,15 @@ def _run_norm(spec, idx, ctx):
     out = norm(use)
     ctx.check(np.array_equal(keep, use, equal_nan=True), "input_mutated", "normalisation modified its input array", dtype=str(use.dtype), interval=spec["interval"], stretch=spec["stretch"], mode=mode)
     _judge(ctx, spec, use, norm, out, "data")
+    cm0 = {"dtype": str(use.dtype), "interval": spec["interval"], "stretch": spec["stretch"], "mode": mode}
+    _stretch_in_use(ctx, norm, cm0)
+    if kw.get("interval_type") == "quantile" and kw.get("vmin") is None and kw.get("vmax") is None:
+        ql = kw.get("lower_quantile")
+        qu = kw.get("upper_quantile")
+        iv_obj = getattr(norm, "interval", None)
+        ql = getattr(iv_obj, "lower_quantile", ql if ql is not None else 0.02)
+        qu = getattr(iv_obj, "upper_quantile", qu if qu is not None else 0.98)
+        _quantile_bracket(ctx, use, float(ql), float(qu), vmin, vmax, cm0)
     if use.dtype.kind == "f" and idx % 4 == 1 and use.size >= 6:
         # the same data handed over as a numpy masked array (dead-pixel mask, matplotlib's own calling convention): entries masked
         # by the caller may stay masked, but a NaN outside that mask must still come back masked and finite unmasked pixels judged as usual
@@ -463,6 +518,92 @@ def _run_combined(spec, idx, ctx):
     ctx.observe(kw=kw)
 
 
+def _run_big(spec, idx, ctx):
+    """Large arrays whose values depend on the pixel position modulo a small period (interlaced rows / columns, fringes): limits
+    and outputs must be those of the whole data whatever the size."""
+    cn = ctx.state["cn"]
+    rng = ctx.rng(idx)
+    n, per = int(spec["size"]), int(spec["period"])
+    dtype = np.dtype(spec["dtype"])
+    levels = np.sort(rng.uniform(0.0, 40.0, size=per))
+    levels[rng.integers(per)] += 60.0  # one phase of the pattern is much brighter
+    pos = np.arange(n) % per
+    data = levels[pos] * 20.0 + rng.uniform(0.0, 15.0, size=n)
+    if dtype.kind == "f" and idx % 2 == 0:
+        data[rng.integers(0, n, size=50)] = np.nan
+    data = data.astype(dtype)
+    if idx % 3 == 0:
+        data = data[: (n // 1024) * 1024].reshape(1024, -1)
+    kw = _cfg(rng, spec["interval"], spec["stretch"], data[..., : 4096] if data.ndim == 1 else data[:4])
+    if spec["interval"] == "centered":
+        kw["vcenter"] = float(np.nanmedian(data[..., :4096].astype(np.float64)))
+    common = {"dtype": str(dtype), "interval": spec["interval"], "stretch": spec["stretch"], "mode": "big"}
+    norm = cn.CustomNormalization(data=data, **kw)
+    out = norm(data)
+    _judge(ctx, {"interval": spec["interval"], "stretch": spec["stretch"], "mode": "big"}, data, norm, out, "big n=%d period=%d" % (n, per))
+    vmin, vmax = float(norm.vmin), float(norm.vmax)
+    if kw.get("interval_type") == "quantile":
+        iv_obj = norm.interval
+        _quantile_bracket(ctx, data, float(getattr(iv_obj, "lower_quantile", kw.get("lower_quantile", 0.02))), float(getattr(iv_obj, "upper_quantile", kw.get("upper_quantile", 0.98))), vmin, vmax, common)
+    elif kw.get("interval_type") == "manual":
+        fin = data[np.isfinite(data)].astype(np.float64) if dtype.kind == "f" else data.astype(np.float64)
+        ctx.close(max(abs(vmin - float(fin.min())), abs(vmax - float(fin.max()))), 1e-9 * float(fin.max() - fin.min()), "minmax_limits_not_data_extremes",
+                  lambda: "limits (%r, %r) vs data extremes (%r, %r)" % (vmin, vmax, float(fin.min()), float(fin.max())), **common)
+    # the limits do not depend on the order of the pixels: the same pixels shuffled
+    sh = data.ravel().copy()
+    rng.shuffle(sh)
+    n2 = cn.CustomNormalization(data=sh, **kw)
+    span = max(vmax - vmin, 1e-300)
+    ctx.close(max(abs(float(n2.vmin) - vmin), abs(float(n2.vmax) - vmax)) / span, 1e-6, "limits_depend_on_pixel_order", lambda: "limits (%r, %r) vs shuffled pixels (%r, %r)" % (vmin, vmax, float(n2.vmin), float(n2.vmax)), **common)
+    if vmin < vmax:
+        ol = np.ma.getdata(norm(np.array([vmin, vmax], dtype=np.float64))).astype(np.float64)
+        ctx.close(max(abs(ol[0]), abs(ol[1] - 1.0)), _ltol(dtype), "limit_lo_not_0" if abs(ol[0]) > abs(ol[1] - 1.0) else "limit_hi_not_1", lambda: "n(limits)=%r" % ol.tolist(), **common)
+    ctx.nontrivial(("big", spec["dtype"], spec["interval"], spec["stretch"], int(np.log2(n))), True)
+    ctx.observe(n=n, period=per, vmin=vmin, vmax=vmax, kw=kw)
+
+
+def _run_pedestal(spec, idx, ctx):
+    """Weak contrast on a large pedestal: the limits are exact data values, so they (and the extreme pixels) map to exactly 0 and 1
+    up to a few ulp in any working precision."""
+    cn = ctx.state["cn"]
+    rng = ctx.rng(idx)
+    dtype = np.dtype(spec["dtype"])
+    R = 10.0 ** float(spec["ratio_exp"]) * (1.0 if dtype == np.float32 else 1e6)
+    c = float(10.0 ** rng.uniform(-2, 2))
+    sign = -1.0 if idx % 5 == 4 else 1.0
+    shape = (int(rng.integers(4, 12)), int(rng.integers(4, 12)))
+    data = (sign * R * c + c * rng.uniform(0.0, 1.0, size=shape)).astype(dtype)
+    if len(np.unique(data)) < 4:
+        ctx.count("pedestal_contrast_below_resolution")
+        return
+    kw = {"stretch_type": spec["stretch"]}
+    if spec["stretch"] == "power":
+        kw["power"] = float(rng.choice([0.5, 2.0, 0.3]))
+    srt = np.unique(data)
+    if spec["interval"] == "manual_both":
+        kw.update(interval_type="manual", vmin=float(srt[1]), vmax=float(srt[-2]))  # exactly representable in the data's dtype
+    elif spec["interval"] == "quantile_wide":
+        kw.update(interval_type="quantile", lower_quantile=0.0, upper_quantile=1.0)
+    else:
+        kw.update(interval_type="manual")
+    common = {"dtype": str(dtype), "interval": spec["interval"], "stretch": spec["stretch"], "mode": "pedestal"}
+    norm = cn.CustomNormalization(data=data, **kw) if idx % 2 == 0 else cn.CustomNormalization(**kw)
+    out = norm(data)
+    _judge(ctx, {"interval": spec["interval"], "stretch": spec["stretch"], "mode": "pedestal"}, data, norm, out, "pedestal ratio %.3g" % R)
+    lo = srt[1] if spec["interval"] == "manual_both" else srt[0]
+    hi = srt[-2] if spec["interval"] == "manual_both" else srt[-1]
+    o = np.ma.getdata(out).astype(np.float64)
+    tol = 16 * float(np.finfo(dtype).eps)
+    ctx.close(float(np.abs(o[data <= lo]).max()), tol, "limit_lo_not_0", lambda: "pixels at the lower limit %r (pedestal/contrast %.3g) map to %r" % (float(lo), R, o[data <= lo][:3].tolist()), **common)
+    ctx.close(float(np.abs(o[data >= hi] - 1.0).max()), tol, "limit_hi_not_1", lambda: "pixels at the upper limit %r (pedestal/contrast %.3g) map to %r" % (float(hi), R, o[data >= hi][:3].tolist()), **common)
+    if spec["stretch"] == "linear":
+        # between the limits the linear stretch is the linear map (judged in the data's precision)
+        ref = np.clip((data.astype(np.float64) - float(lo)) / (float(hi) - float(lo)), 0.0, 1.0)
+        ctx.close(float(np.abs(o - ref).max()), tol, "linear_map_mismatch", lambda: "max deviation from (x-vmin)/(vmax-vmin): %.3g (pedestal/contrast %.3g)" % (float(np.abs(o - ref).max()), R), **common)
+    ctx.nontrivial(("pedestal", spec["dtype"], spec["interval"], spec["stretch"], spec["ratio_exp"]), True)
+    ctx.observe(ratio=R, contrast=c, kw=kw)
+
+
 def _run_viz(spec, idx, ctx):
     """In situ: what the plotting entry points hand to the colour conversion must be the requested normalisation of the data."""
     from matplotlib.figure import Figure
@@ -564,5 +705,9 @@ def run_case(spec, idx, ctx):
             _run_stretch(spec, idx, ctx)
         elif spec["kind"] == "viz":
             _run_viz(spec, idx, ctx)
+        elif spec["kind"] == "big":
+            _run_big(spec, idx, ctx)
+        elif spec["kind"] == "pedestal":
+            _run_pedestal(spec, idx, ctx)
         else:
             _run_combined(spec, idx, ctx)
